@@ -4,7 +4,11 @@ from harness import circuit_edit as ce
 
 THEOREMS = ['C09_empty', 'C09_step_inv', 'C09_step_primitive', 'C09_history_inv', 'C09_step_inv_io', 'C09_history_inv_io',
             'C09_copy', 'C09_pickle', 'C09_copy_is_pickle', 'C09_eliminate', 'C09_remove_dangling', 'C09_stats', 'C09_cinv_b_sound',
-            'C09_substitute_early_cleanup_refuted', 'C09_substitute_witness_ok', 'C09_example', 'C09_example2']
+            'C09_substitute_early_cleanup_refuted', 'C09_substitute_witness_ok', 'C09_example', 'C09_example2',
+            'C09_supported_all', 'C09_history_inv_all', 'C09_substitute', 'C09_substitute_core', 'C09_resolve',
+            'C09_subst_dup_port_refuted', 'C09_subst_cell_port_refuted', 'C09_subst_designated_port_refuted',
+            'C09_subst_fork_output_refuted', 'C09_resolve_removed_instance_refuted', 'C09_resolve_removed_instance_ok',
+            'C09_substitute_example', 'C09_example3']
 
 LIB_NETLIST = '''module m (a, b, c, y, z); input a, b, c; output y, z;
   %s u1 (%s);
@@ -102,6 +106,16 @@ def run(ck):
         h = ce.run_history(rng, 0, 'valid', fixed_ops=ops)
         h['style'] = 'instance'
         hs.append(h)
+    for ops in ce.removed_instance_scenarios():
+        h = ce.run_history(rng, 0, 'valid', fixed_ops=ops)
+        h['style'] = 'instance'
+        if len(h['steps']) != len(ops) or not all(s[1] for s in h['steps']):
+            h['failure'] = h['failure'] or (len(h['steps']), 'a step of the removed-instance scenario is not well-formed use / was skipped')
+        hs.append(h)
+    for ops in ce.shape_witness_scenarios():
+        h = ce.run_history(rng, 0, 'wild', fixed_ops=ops)
+        h['style'] = 'wild'
+        hs.append(h)
     found = []
     for i, h in enumerate(hs):
         st = h['steps']
@@ -148,8 +162,12 @@ def run(ck):
     ck.trust('theorems are about the Gallina transcription Model/Circuit.v, tied to circuit.py by comparing the complete canonical state after every '
              'step of random histories; Python object identity is modelled by creation-order ids (observed by wrapping Node/Line.__init__ in the harness)',
              'proved for ALL histories of well-formed use: Node, Line, Line.remove, Node.remove, io_nodes[]=, get_or_add_fork, remove_dangling_nodes, '
-             'eliminate_1to1_forks, copy, pickle round trip (graph invariant CInv and "every io_nodes entry is a listed node"); '
-             'substitute / resolve_tlib_cells are NOT covered by a theorem: modelled, tied by correspondence, their results checked with the sound '
+             'eliminate_1to1_forks, substitute, resolve_tlib_cells, copy, pickle round trip (graph invariant CInv and "every io_nodes entry is a '
+             'listed node"); well-formed use of substitute includes the shape of the implementation (distinct fork ports, designated cell not a '
+             'port, no fork drives a pure output port: each shown necessary by a witness reproduced on the real code); for '
+             'resolve_tlib_cells the conditions are evaluated per live instance in the state in which the loop visits it (instances removed by '
+             'an earlier clean-up are skipped since 11c77ac; the loop before that commit is refuted by C09_resolve_removed_instance_refuted); '
+             'the model is tied by correspondence, the results are also checked with the sound '
              'executable invariant cinv_b and by the independent Python oracle on every generated history and every library cell')
     # --- findings ----------------------------------------------------------------------------------------
     for h in found[:4]:
